@@ -29,6 +29,12 @@ CHECKS = {
    text="Seeded exploration of (length, CPU count, data, schedule): the shipped dot_f64 runs as shuttle tasks whose every scheduling decision comes from VERIF_SEED and is recorded; every (len 0..=200) x (CPUs 1..=16) pair is visited in every tier, plus lengths to 5000 and CPU counts to 200; oracles are exact-integer equality, a reassociation error bound, basis probes (each index covered exactly once), bit-identity across schedules and repeated calls, no panic/deadlock, operands intact. Sampling of schedules, not proof.",
    design="§4.1",
    note="Trusted: shuttle's model of std::thread::scope/spawn/join; the CPU-count override standing in for num_cpus::get (cross-checked by Miri with real std threads and -Zmiri-num-cpus in the thorough tier); the Dot2 reference and the gamma(n) bound for general floats; +0.0 == -0.0."),
+ "C18": dict(
+   engine="simcheck (scripted-callback simulator)",
+   technique="deterministic simulation of the user map as a scripted, recording, possibly faulty peer: stencil classification, table/affine/smooth environments, injected NaN/Inf/panic; seeded search with shrinking",
+   text="The real Mat64::jacobian / Matrix::<Cmplx>::jacobian_cmplx run against a simulated user function that classifies every evaluation point against the forward stencil, answers from a script (affine-dyadic: J == M bit for bit; arbitrary table on the stencil, NaN off it; smooth with known derivative: O(delta) bound) and injects NaN/Inf at chosen stencil points or a panic at a chosen evaluation. All 36 shapes 1..6 x 1..6 (m<n, m=n, m>n), real and complex, are enumerated in every tier; the rest is seeded sampling. Oracles: shape, entries, fault containment (exactly the entries fed a non-finite value are non-finite), panic propagation.",
+   design="§4.4",
+   note="Trusted: the stencil classification tolerance (bitwise on dyadic data, 2 ulp otherwise); rounding tolerances on non-dyadic data; the callback is the only channel through which the routine sees the map. Order/multiplicity of evaluations is not constrained here."),
 }
 
 def main():
